@@ -253,6 +253,18 @@ def gen_graph(rng, max_nodes=7):
         while k < 2 * out[i]:
             k *= 2
         sc.append([i, j, Fr(w, k)])
+    if rng.random() < 0.15:
+        # a path / cycle through a tiny and a huge weight: the product is ordinary, neither factor is negligible
+        e = rng.choice([50, 60])
+        if rng.random() < 0.5 or n < 2:
+            sc += [[n, n + 1, Fr(1, 2**e)], [n + 1, n + 2, Fr(2**e)]]
+            if n:
+                sc.append([rng.randrange(n), n, Fr(1, 4)])
+            n += 3
+        else:
+            sc += [[n, n + 1, Fr(1, 2**e)], [n + 1, n, Fr(2 ** (e - 2))]]  # 2-cycle of weight 1/4
+            sc.append([n + 1, rng.randrange(n), Fr(1, 4)])
+            n += 2
     b = [[i, Fr(rng.randint(0, 4), 4)] for i in range(n) if rng.random() < 0.6]
     names = state_names(rng, n, ["a"], rng.choice(["int", "str", "tuple"]))
     return {"n": n, "names": names, "edges": sc, "b": b}
